@@ -152,6 +152,12 @@ impl Emit<'_> {
                 }
             }
         }
+        // names of external variables are arbitrary strings, not identifiers: now and then one with 2-/3-/4-byte
+        // characters, a dash or a dot (everything up to the first '=' is the name, byte for byte)
+        if (p == "e" || p == "c" || p == "cf") && self.rng.chance(1, 4) {
+            let deco = *self.rng.pick(&["é", "日本", "ü-", "x.", "π_", "🙂", "a é"]);
+            return if self.rng.chance(1, 2) { format!("{deco}{p}{}", self.counter) } else { format!("{p}{}{deco}", self.counter) };
+        }
         format!("{p}{}", self.counter)
     }
 
@@ -451,8 +457,8 @@ pub fn gen_world(seed: u64) -> C12World {
                 expect = Expect::Fail(1, "-m on a non-object".into());
             }
             3 if !use_tla => {
-                extra_flags.push("--tla-str".into());
-                extra_flags.push("zz=1".into());
+                extra_flags.push(if em.rng.chance(1, 2) { "--tla-str".into() } else { "--tla-code".into() });
+                extra_flags.push(format!("{}=1", em.rng.pick(&["zz", "zé", "日本", "é"])));
                 expect = Expect::Fail(1, "TLA given but root is not a function".into());
             }
             4 => {
@@ -499,9 +505,10 @@ pub fn gen_world(seed: u64) -> C12World {
             }
             12 => {
                 extra_flags.push("--ext-str".into());
-                extra_flags.push("dup=1".into());
+                let dup = *em.rng.pick(&["dup", "dé", "日本"]);
+                extra_flags.push(format!("{dup}=1"));
                 extra_flags.push(if em.rng.chance(1, 2) { "--ext-code".into() } else { "--ext-str".into() });
-                extra_flags.push("dup=2".into());
+                extra_flags.push(format!("{dup}=2"));
                 expect = Expect::Fail(1, "ext var defined twice".into());
             }
             9 => {
